@@ -58,6 +58,69 @@ def ordered_types(ctx):
     return out
 
 
+def window_form(ctx, body, e):
+    """`e` is the wrapping distance incoming - outgoing of an ordered collection's position counters -- the number of
+    accepted-but-not-yet-yielded futures (running + parked) as long as the index discipline of R4.1 / R4.2 / R4.3 holds
+    (each accepted push_back steps incoming by one, each accepted push_front steps outgoing back by one, each yield steps
+    outgoing by one, the re-base flips the same bit of both).  Forms: `(in - out).0` on Wrapping counters,
+    `in.wrapping_sub(out)` on their values.  -> the ordered type's path or None."""
+    e = strip_refs(e)
+    if e[0] == "proj" and e[2] == (".0",):
+        e = strip_refs(e[1])
+    if not (e[0] == "call" and len(e[2]) == 2 and re.search(
+            r"<core::num::Wrapping<usize> as core::ops::Sub>::sub$|core::num::<impl usize>::wrapping_sub$", e[1] or "")):
+        return None
+    for path, w, h in ordered_types(ctx):
+        a, b_ = counter_of(ctx, body, e[2][0], w), counter_of(ctx, body, e[2][1], w)
+        if not a or not b_ or a == b_:
+            continue
+        if not (body.path.startswith(path + "::<") or body.path.startswith("<" + path + "<")):
+            continue
+        for pb in ctx.facts.fn_bodies():
+            if re.search(r"^<%s<.*> as futures_core::Stream>::poll_next$" % re.escape(path), pb.path):
+                o = outgoing_counter(ctx, pb, w)
+                if o is not None and b_ == o and a != o:
+                    return path
+    return None
+
+
+def reads_window(ctx, body, e, depth=3):
+    """`e` reads the counter window (window_form), directly or through crate observers it calls (len / is_empty ...)."""
+    if not isinstance(e, tuple) or not e:
+        return False
+    if window_form(ctx, body, e) is not None:
+        return True
+    for sub in _subexprs(e)[1:]:
+        if sub[0] in ("call", "proj") and window_form(ctx, body, sub) is not None:
+            return True
+    if depth > 0:
+        for c in expr_calls(e):
+            cb = ctx.facts.bodies.get(c[1] or "")
+            if cb is not None and cb.n <= 40 and re.search(r"::(len|is_empty|is_terminated|is_full|has_room|remaining)$", cb.path):
+                if reads_window(ctx, cb, ctx.flow(cb).local_expr(0), depth - 1):
+                    return True
+    return False
+
+
+def window_links(ctx, R):
+    """The rules a counter-window observer rests on, evaluated once per check."""
+    if getattr(ctx, "_window_links_done", False):
+        return
+    ctx._window_links_done = True
+    ot = ordered_types(ctx)
+    have = {o.rule for o in ctx.obs}
+    if "R4.1" not in have:
+        r4_1(ctx, R, ot)
+    if "R4.2" not in have:
+        r4_2(ctx, R, ot)
+    if "R4.3" not in have:
+        r4_3(ctx, R, ot)
+    for rid, txt in (("R4.1", "index discipline"), ("R4.2", "one step of the outgoing counter per yield"), ("R4.3", "uniform re-base")):
+        ctx.rule_texts.setdefault(rid, "see C04 %s (link, because an observer of an ordered collection is computed as the wrapping "
+                                       "distance of its position counters): %s -- only then does incoming - outgoing equal "
+                                       "running + parked" % (rid, txt))
+
+
 def closure_captures(ctx, cbody):
     """Capture expressions of a closure body, evaluated in its parent function."""
     parent = cbody.j.get("parent_fn")
@@ -495,6 +558,137 @@ def _same_item(index_expr, item_expr):
     return False
 
 
+class _NoModel(Exception):
+    pass
+
+
+def _eval8(ctx, b, e, env, counters):
+    """Value of an index expression in an 8-bit model of usize: the position counters take the values of `env`, the
+    constant 1<<63 is the model's top bit (0x80), usize::MAX its 0xFF; anything else is outside the model."""
+    e = strip_refs(e)
+    if e[0] == "proj" and e[2] == (".0",) and e[1][0] == "binop" and e[1][1].endswith("WithOverflow"):
+        e = ("binop", e[1][1].replace("WithOverflow", ""), e[1][2], e[1][3])
+    c, off = counter_val(ctx, b, e, counters)
+    if c is not None:
+        return (env[c] + off) & 0xFF
+    if e[0] == "const":
+        try:
+            v = int(e[2])
+        except (TypeError, ValueError):
+            raise _NoModel("const")
+        if e[1] == "bool":
+            return bool(v)
+        if v == 1 << 63:
+            return 0x80
+        if v == (1 << 64) - 1:
+            return 0xFF
+        if v == (1 << 63) - 1:
+            return 0x7F
+        if 0 <= v < 0x40:
+            return v
+        raise _NoModel("const %d" % v)
+    if e[0] == "binop":
+        a, c_ = _eval8(ctx, b, e[2], env, counters), _eval8(ctx, b, e[3], env, counters)
+        op = e[1]
+        if op == "BitAnd":
+            return a & c_
+        if op == "BitOr":
+            return a | c_
+        if op == "BitXor":
+            return a ^ c_
+        if op in ("Eq", "Ne", "Lt", "Le", "Gt", "Ge"):
+            return {"Eq": a == c_, "Ne": a != c_, "Lt": a < c_, "Le": a <= c_, "Gt": a > c_, "Ge": a >= c_}[op]
+        if op in ("Sub", "SubUnchecked"):
+            if a < c_:
+                raise _NoModel("underflow")
+            return a - c_
+        if op in ("Add", "AddUnchecked"):
+            if a + c_ > 0xFF:
+                raise _NoModel("overflow")
+            return a + c_
+        if op == "Shr" and c_ == 63:
+            return a >> 7
+        raise _NoModel(op)
+    if e[0] == "unop" and e[1] == "Not":
+        v = _eval8(ctx, b, e[2], env, counters)
+        return (not v) if isinstance(v, bool) else (~v) & 0xFF
+    if e[0] == "call" and len(e[2]) == 2:
+        m = re.search(r"core::num::<impl usize>::wrapping_(add|sub)$", e[1] or "")
+        if m:
+            a, c_ = _eval8(ctx, b, e[2][0], env, counters), _eval8(ctx, b, e[2][1], env, counters)
+            return (a + c_) & 0xFF if m.group(1) == "add" else (a - c_) & 0xFF
+        m = re.search(r"core::cmp::PartialOrd(<.*>)?>?::(lt|le|gt|ge)$|core::cmp::PartialEq(<.*>)?>?::(eq|ne)$", e[1] or "")
+        if m:
+            a, c_ = _eval8(ctx, b, e[2][0], env, counters), _eval8(ctx, b, e[2][1], env, counters)
+            nm = (e[1] or "").split("::")[-1]
+            return {"lt": a < c_, "le": a <= c_, "gt": a > c_, "ge": a >= c_, "eq": a == c_, "ne": a != c_}[nm]
+    raise _NoModel(e[0])
+
+
+def _wrap_guard_entailed(ctx, b, fl, counters, outgoing):
+    """The re-base region (every `x ^= C` store) is guarded by a test of the position counters that means "the live
+    window [outgoing, incoming) may wrap": decided in an 8-bit model for every (outgoing, length < half the index space) --
+    where the guard holds, the window is contiguous after x ^= top-bit; where it does not hold, the window does not wrap.
+    -> (ok, block the region starts at, detail) or None when there is no such guard."""
+    xs = [bb for (bb, i, s) in fl.stores if i != "term" and not b.is_cleanup(bb) and s["rv"]["k"] == "binop" and s["rv"]["op"] == "BitXor"]
+    if not xs:
+        return None
+    incoming = [c for c in counters if c != outgoing]
+    if len(incoming) != 1:
+        return None
+    conj = []
+    tgt_in = None
+    for sb in range(b.n):
+        for tgt, labs in fl.edge_labels(sb).items():
+            if not all(b.dominates(tgt, x) for x in xs):
+                continue
+            # the edge must be the only way into tgt (otherwise the label is not a guard of the region)
+            if any(tgt in b.normal_succ(p_) for p_ in range(b.n) if p_ != sb and not b.is_cleanup(p_)):
+                continue
+            for lab in labs:
+                if lab[0] == "bool" and any(counter_val(ctx, b, x_, counters)[0] for x_ in _subexprs(lab[1])):
+                    conj.append((lab[1], lab[2]))
+                    if tgt_in is None or b.dominates(tgt_in, tgt):
+                        tgt_in = tgt
+    if not conj:
+        return None
+    try:
+        for out in range(256):
+            for ln in range(128):
+                env = {outgoing: out, incoming[0]: (out + ln) & 0xFF}
+                g = all(bool(_eval8(ctx, b, e_, env, counters)) is v_ for e_, v_ in conj)
+                if g:
+                    if (out ^ 0x80) > (env[incoming[0]] ^ 0x80):
+                        return False, tgt_in, "guard %s holds at outgoing=%#x len=%d but the window still wraps after the re-base" % (
+                            " && ".join(expr_str(e_) for e_, _ in conj), out, ln)
+                elif out > env[incoming[0]]:
+                    return False, tgt_in, "guard %s is false at outgoing=%#x len=%d (8-bit model) although the window wraps" % (
+                        " && ".join(expr_str(e_) for e_, _ in conj), out, ln)
+    except _NoModel as ex:
+        return False, tgt_in, "guard %s is outside the index model (%s)" % (" && ".join(expr_str(e_) for e_, _ in conj), ex)
+    return True, tgt_in, "guard %s entails 'window may wrap' and the re-based window is contiguous (8-bit model, all outgoing x len<128)" % (
+        " && ".join(expr_str(e_) for e_, _ in conj))
+
+
+def _subexprs(e, out=None):
+    if out is None:
+        out = []
+    if not isinstance(e, tuple) or not e:
+        return out
+    out.append(e)
+    if e[0] == "binop":
+        _subexprs(e[2], out)
+        _subexprs(e[3], out)
+    elif e[0] in ("call", "agg"):
+        for a in e[2]:
+            _subexprs(a, out)
+    elif e[0] in ("proj", "ref"):
+        _subexprs(e[1], out)
+    elif e[0] in ("unop", "cast"):
+        _subexprs(e[2], out)
+    return out
+
+
 def r4_3(ctx, R, otypes):
     ctx.rule("R4.3", "uniform re-base: all `p = p ^ C` stores of the ordered poll_next lie behind the true edge of "
                      "(outgoing & C) == C with one common C, and cover exactly {parked heap entries (loop over the vector of "
@@ -528,7 +722,15 @@ def r4_3(ctx, R, otypes):
                                     cv = 0
                                 if cv > 0 and cv & (cv - 1) == 0:
                                     guard_tgt, mask = tgt, a[3][2]
-            ctx.ob("R4.3", b, "rebase-guard=(outgoing&MSB)==MSB", guard_tgt is not None and mask == str(1 << 63), d_loc(b), "mask %s" % mask)
+            gdet = "mask %s" % mask
+            if guard_tgt is None or mask != str(1 << 63):
+                # any other test of the two position counters: decided on its meaning (see _wrap_guard_entailed)
+                alt = _wrap_guard_entailed(ctx, b, fl, w, o)
+                if alt is not None and alt[0]:
+                    guard_tgt, mask = alt[1], str(1 << 63)
+                if alt is not None:
+                    gdet = alt[2]
+            ctx.ob("R4.3", b, "rebase-guard=(outgoing&MSB)==MSB", guard_tgt is not None and mask == str(1 << 63), d_loc(b), gdet)
             if guard_tgt is None:
                 continue
             targets = {}
